@@ -21,7 +21,7 @@ ALPHA = "abcdefghijklmnopqrstuvwxyzABCDEFGHIJKLMNOPQRSTUVWXYZ0123456789"
 
 
 # (size, seed) of mode-"nz" contents whose SHA-1 digest happens to be valid UTF-8 (found by search; verified by selfcheck())
-UTF8_SHA1 = [(7, 188267), (7, 325718), (100, 13065), (100, 114349), (5000, 64089), (5000, 89257)]
+UTF8_SHA1 = [(7, 188267), (7, 325718), (100, 13065), (100, 114349), (5000, 64089), (5000, 89257), (16384, 68539), (16384, 330530)]
 
 
 def selfcheck():
@@ -132,6 +132,11 @@ def tree(draw, P, max_files=8, modes=None, single=None, min_files=1, cli_safe=Fa
         f = draw(file_entry(P, modes, big, nonempty=nonempty_total))
         f["path"] = []
         return {"name": name, "single": True, "files": [f]}
+    if "nz" in modes and P == 16384 and draw(st.sampled_from([True] + [False] * 19)):
+        # two pieces whose SHA-1 digests are both valid UTF-8 with multi-byte characters: the whole piece string decodes as text
+        return {"name": name, "single": False, "files": [
+            {"path": ["p1"], "size": 16384, "mode": "nz", "seed": draw(st.sampled_from([68539, 330530]))},
+            dict(zip(("size", "seed"), draw(st.sampled_from([(7, 188267), (100, 13065), (5000, 64089)]))), path=["p2"], mode="nz")]}
     n = draw(st.integers(min_files, max_files))
     pool = draw(st.lists(comp, min_size=1, max_size=5, unique=True))
     one = st.one_of(st.sampled_from(pool), comp)
